@@ -1369,6 +1369,9 @@ impl Lexer<'_> {
                     try_lexing_numeric = false;
                     ws_mark = None;
                     self.cursor.advance();
+
+                    // We have consumed a letter, so a mnemonic can't follow immediately
+                    may_precede_mnemonic = false;
                 }
                 _ => {
                     // Not a terminator, just a regular character in the string
